@@ -8,6 +8,8 @@ package main
 
 import (
 	"fmt"
+	"os"
+	"path/filepath"
 	"go/ast"
 	"go/token"
 	"strings"
@@ -398,6 +400,16 @@ func genBlocking() {
 	b.WriteString("def newPeerReturns : List (String × Bool) := [" + strings.Join(newPeerReturns(f), ", ") + "]\n")
 	b.WriteString("/-- peer.Run: its first statement that can matter on exit is `defer func(){ … peer.conn.Close() … }()`, registered before any return -/\n")
 	b.WriteString(fmt.Sprintf("def peerRunClosesConnFirst : Bool := %v\n", peerRunClosesConnFirst(files["peer/peer.go"])))
+	makesFirst, refusal := addTorrentRefusal(f)
+	b.WriteString("/-- AddTorrent: the three channels (Event, Done, Deleted) are made before `add(t)` is called -/\n")
+	b.WriteString(fmt.Sprintf("def addTorrentMakesBeforeAdd : Bool := %v\n", makesFirst))
+	b.WriteString("/-- AddTorrent: the statements of the branch that refuses a duplicate (`if !added { … }`) -/\n")
+	b.WriteString("def addTorrentRefusal : List String := [" + strings.Join(refusal, ", ") + "]\n")
+	waits, hazards := replyWaits()
+	b.WriteString("/-- every function of packages tor, peer, http, fuse that sends an event carrying a reply channel it made\n    and then receives on that channel: (function, how it waits, can the wait be abandoned for a reason\n    other than the answering loop's Done) -/\n")
+	b.WriteString("def replyWaits : List (String × String × Bool) := [" + strings.Join(waits, ",\n  ") + "]\n")
+	b.WriteString("/-- abandonable waits whose event is answered by a plain (blocking, unbuffered) send of the loop -/\n")
+	b.WriteString("def replyHazards : List (String × String × Bool) := [" + strings.Join(hazards, ", ") + "]\n")
 	b.WriteString("end Storrent.Gen\n")
 	writeIfChanged("Blocking.lean", b.String())
 }
@@ -633,6 +645,168 @@ func peerRunClosesConnFirst(f *ast.File) bool {
 		}
 	}
 	return false
+}
+
+// addTorrentRefusal: are Event/Done/Deleted made before add(t), and what does the refusal do.
+func addTorrentRefusal(f *ast.File) (bool, []string) {
+	fd := findFunc(f, "AddTorrent")
+	if fd == nil {
+		return false, []string{leanStr("unknown")}
+	}
+	makes := 0
+	makesFirst := false
+	var refusal []string
+	for _, st := range fd.Body.List {
+		if a, ok := st.(*ast.AssignStmt); ok && len(a.Lhs) == 1 && len(a.Rhs) == 1 {
+			l := src(a.Lhs[0])
+			if (l == "t.Event" || l == "t.Done" || l == "t.Deleted") && strings.HasPrefix(src(a.Rhs[0]), "make(chan") {
+				makes++
+			}
+			if src(a.Rhs[0]) == "add(t)" {
+				makesFirst = makes == 3
+			}
+		}
+		if ifs, ok := st.(*ast.IfStmt); ok && src(ifs.Cond) == "!added" {
+			for _, s := range ifs.Body.List {
+				refusal = append(refusal, leanStr(oneLine(src(s))))
+			}
+		}
+	}
+	if refusal == nil {
+		refusal = []string{leanStr("unknown")}
+	}
+	return makesFirst, refusal
+}
+
+// replyWaits scans packages tor, peer, http and fuse for request/reply exchanges with an event
+// loop: a channel made in the function, sent inside a composite literal on an `.Event` channel,
+// then received from.  The loops answer with a plain send on an unbuffered channel, so a wait
+// that can be abandoned for any reason other than that loop's Done would strand the loop.
+func replyWaits() (rows []string, hazards []string) {
+	dirs := []string{"tor", "peer", "http", "fuse"}
+	for _, dir := range dirs {
+		entries, err := os.ReadDir(filepath.Join(*repo, dir))
+		if err != nil {
+			continue
+		}
+		for _, ent := range entries {
+			name := ent.Name()
+			if !strings.HasSuffix(name, ".go") || strings.HasSuffix(name, "_test.go") || strings.HasPrefix(name, "verif_") {
+				continue
+			}
+			f := parse(dir + "/" + name)
+			for _, d := range f.Decls {
+				fd, ok := d.(*ast.FuncDecl)
+				if !ok || fd.Body == nil {
+					continue
+				}
+				fname := dir + "." + fd.Name.Name
+				if fd.Recv != nil && len(fd.Recv.List) > 0 {
+					t := fd.Recv.List[0].Type
+					if s, ok := t.(*ast.StarExpr); ok {
+						t = s.X
+					}
+					fname = dir + "." + src(t) + "." + fd.Name.Name
+				}
+				locals := localChans(fd)
+				// made channels that travel inside an event
+				carried := map[string]bool{}
+				buffered := map[string]bool{}
+				ast.Inspect(fd.Body, func(n ast.Node) bool {
+					switch n := n.(type) {
+					case *ast.SendStmt:
+						if !strings.HasSuffix(src(n.Chan), ".Event") {
+							return true
+						}
+						ast.Inspect(n.Value, func(m ast.Node) bool {
+							if id, ok := m.(*ast.Ident); ok && strings.HasPrefix(locals[id.Name], "made#") {
+								carried[id.Name] = true
+							}
+							return true
+						})
+					case *ast.AssignStmt:
+						for i, l := range n.Lhs {
+							if id, ok := l.(*ast.Ident); ok && i < len(n.Rhs) {
+								if c, ok := n.Rhs[i].(*ast.CallExpr); ok && len(c.Args) >= 2 && src(c.Fun) == "make" {
+									buffered[id.Name] = true
+								}
+							}
+						}
+					}
+					return true
+				})
+				if len(carried) == 0 {
+					continue
+				}
+				inSel := map[ast.Node]bool{}
+				ast.Inspect(fd.Body, func(n ast.Node) bool {
+					sel, ok := n.(*ast.SelectStmt)
+					if !ok {
+						return true
+					}
+					for _, c := range sel.Body.List {
+						cc := c.(*ast.CommClause)
+						if cc.Comm == nil {
+							continue
+						}
+						dir, che, node := commExprOf(cc.Comm)
+						id, isId := che.(*ast.Ident)
+						if dir != ".recv" || !isId || !carried[id.Name] {
+							continue
+						}
+						inSel[node] = true
+						var alts []string
+						abandon := false
+						for _, o := range sel.Body.List {
+							oc := o.(*ast.CommClause)
+							if oc == cc {
+								continue
+							}
+							if oc.Comm == nil {
+								alts = append(alts, "default")
+								abandon = true
+								continue
+							}
+							odir, och, _ := commOf(oc.Comm)
+							cls := ""
+							if odir == ".recv" {
+								cls = exitClass(och)
+							}
+							switch cls {
+							case ".tDone", ".pDone":
+								alts = append(alts, strings.TrimPrefix(cls, "."))
+							case "":
+								alts = append(alts, "other")
+								abandon = true
+							default:
+								alts = append(alts, strings.TrimPrefix(cls, "."))
+								abandon = true
+							}
+						}
+						how := "select[" + strings.Join(alts, ",") + "]"
+						if buffered[id.Name] {
+							how += " buffered"
+						}
+						row := fmt.Sprintf("(%s, %s, %v)", leanStr(fname), leanStr(how), abandon && !buffered[id.Name])
+						rows = append(rows, row)
+						if abandon && !buffered[id.Name] {
+							hazards = append(hazards, row)
+						}
+					}
+					return true
+				})
+				ast.Inspect(fd.Body, func(n ast.Node) bool {
+					if u, ok := n.(*ast.UnaryExpr); ok && u.Op == token.ARROW && !inSel[u] {
+						if id, ok := u.X.(*ast.Ident); ok && carried[id.Name] {
+							rows = append(rows, fmt.Sprintf("(%s, %s, false)", leanStr(fname), leanStr("bare receive")))
+						}
+					}
+					return true
+				})
+			}
+		}
+	}
+	return rows, hazards
 }
 
 func init() { extraGens = append(extraGens, genBlocking) }
